@@ -28,4 +28,10 @@ def harnesses(tier):
     hs[-1].unwind = LP + 4; hs[-1].backend = 'cadical'; hs[-1].timeout = 900 if tier == 'quick' else 7200; hs[-1].mem_gb = 24
     hs[-1].bounds = 'option strings <= %d bytes (all byte values), unwind %d%s' % (LP, LP + 4, '; NO_OPTION_ECHO set (echo path only in the thorough tier)' if tier == 'quick' else '')
     hs[-1].flags = ['--object-bits', '12']
+    for ws in (0, 1, 2):
+        for kl in ((5, 7) if tier == 'quick' else (3, 5, 7, 9)):
+            h = Harness('h_wc_match', 'optparse', unwind=14, timeout=300 if tier == 'quick' else 1200, mem_gb=16, defines=['MAXLEN=%d' % L, 'WCSET=%d' % ws, 'KEYLEN=%d' % kl], tv_cases=0, flags=['--object-bits', '10'],
+                        bounds='option name set %d (1-2 wildcard names, concrete), every key of %d non-NUL bytes' % (ws, kl), assumptions=['SolverOption object image: wildcard head/tail table filled directly (the constructor uses std::istringstream); key length enumerated, key bytes symbolic'],
+                        claims='SolverOption::wc_match: matches iff head is a prefix and tail a suffix of the key; the * body is taken between head and tail of the name that matched')
+            h.label = 'h_wc_match[set%d,len%d]' % (ws, kl); hs.append(h)
     return hs
